@@ -5,8 +5,8 @@
    sstep  = the same operation on a list of lists of (name, value) pairs (Lossy.l_set etc.);
    ldocl / lwf = the layouts a live document can have (coq/model/LiveDoc.v): every parsed
             well-formed document and every document built from canonical pairs is one. *)
-From V.model Require Import Base Deb822Lex Deb822Parse Grammar Lossy Deb822Edit LiveDoc.
-From V.proofs Require Import Deb822EditP LiveDocP.
+From V.model Require Import Base Deb822Lex Deb822Parse Grammar Lossy Deb822Edit LiveDoc LiveTree.
+From V.proofs Require Import Deb822EditP LiveDocP LiveDocEvP.
 
 (* 1. Refinement, for EVERY tree (parsed or built, well-formed or not), every name and value,
       every history: the live object reports what the list operations give. *)
@@ -52,22 +52,65 @@ Check C04_parsed_is_live : forall d : doc, wf_doc d = true ->
 Print Assumptions C04_parsed_is_live.
 
 (* 4. Histories: after ANY sequence of set/insert/remove/rename with arguments in the domain
-      (canon_kv: valid name, value of non-empty lines ...; rename: the renamed field carries a
-      value), starting from any live document, the tree is again a live document, reports the
-      list-model content, and its printed text re-reads without error to that content (an
-      empty paragraph prints nothing and is not re-read). *)
-Theorem C04_history : forall ops d, lwf d = true -> ops_ok d ops ->
+      (op_dom: set/insert take a canon_kv name and value - valid name, value of non-empty lines
+      ...; rename takes a valid new name; nothing is asked of the document or of the renamed
+      field, whose value may be empty), starting from any live document, the tree is again the
+      tree of a live document (live_tree, coq/model/LiveTree.v: up to empty VALUE tokens -
+      Entry::new puts one for an empty value, the only way an edit differs from what the reader
+      builds; they print nothing), reports the list-model content, and its printed text
+      re-reads without error to that content (an empty paragraph prints nothing and is not
+      re-read). *)
+Theorem C04_history : forall ops d, lwf d = true -> Forall op_dom ops ->
+  let t' := fold_left tstep ops (ltree_of d) in
+  let d' := fold_left astep ops d in
+  live_tree t' d' /\ lwf d' = true /\
+  doc_items t' = fold_left sstep ops (doc_items (ltree_of d)) /\
+  exists t'', from_str (text t') = Ok t'' /\ doc_items t'' = nonempty_paras (doc_items t').
+Proof. exact C04_history_every. Qed.
+Check C04_history : forall ops d, lwf d = true -> Forall op_dom ops ->
+  let t' := fold_left tstep ops (ltree_of d) in
+  let d' := fold_left astep ops d in
+  live_tree t' d' /\ lwf d' = true /\
+  doc_items t' = fold_left sstep ops (doc_items (ltree_of d)) /\
+  exists t'', from_str (text t') = Ok t'' /\ doc_items t'' = nonempty_paras (doc_items t').
+Print Assumptions C04_history.
+
+(* what the domain and live_tree say, spelled out *)
+Theorem C04_domain : forall o, op_dom o <->
+  match o with
+  | OSet _ k v | OInsert _ k v => canon_kv k v = true
+  | ORemove _ _ => True
+  | ORename _ _ new => valid_name new = true
+  end.
+Proof. intros o. destruct o; reflexivity. Qed.
+Check C04_domain : forall o, op_dom o <->
+  match o with
+  | OSet _ k v | OInsert _ k v => canon_kv k v = true
+  | ORemove _ _ => True
+  | ORename _ _ new => valid_name new = true
+  end.
+Print Assumptions C04_domain.
+
+Theorem C04_live_tree : forall t d, live_tree t d <-> drop_empty_values t = ltree_of d.
+Proof. intros t d. reflexivity. Qed.
+Check C04_live_tree : forall t d, live_tree t d <-> drop_empty_values t = ltree_of d.
+Print Assumptions C04_live_tree.
+
+(* 4'. When every renamed field carries a value (ops_ok: rename_ok asks it of the first field of
+      that name at the time of the rename) no empty VALUE token arises and the tree is exactly
+      the layout's tree. *)
+Theorem C04_history_exact : forall ops d, lwf d = true -> ops_ok d ops ->
   let t' := fold_left tstep ops (ltree_of d) in
   t' = ltree_of (fold_left astep ops d) /\ lwf (fold_left astep ops d) = true /\
   doc_items t' = fold_left sstep ops (doc_items (ltree_of d)) /\
   exists t'', from_str (text t') = Ok t'' /\ doc_items t'' = nonempty_paras (doc_items t').
 Proof. exact C04_history_all. Qed.
-Check C04_history : forall ops d, lwf d = true -> ops_ok d ops ->
+Check C04_history_exact : forall ops d, lwf d = true -> ops_ok d ops ->
   let t' := fold_left tstep ops (ltree_of d) in
   t' = ltree_of (fold_left astep ops d) /\ lwf (fold_left astep ops d) = true /\
   doc_items t' = fold_left sstep ops (doc_items (ltree_of d)) /\
   exists t'', from_str (text t') = Ok t'' /\ doc_items t'' = nonempty_paras (doc_items t').
-Print Assumptions C04_history.
+Print Assumptions C04_history_exact.
 
 (* 5. Paragraphs built from name/value pairs (FromIterator) are live paragraphs. *)
 Theorem C04_built_is_live : forall l, Forall (fun kv => canon_kv (fst kv) (snd kv) = true) l ->
@@ -83,9 +126,33 @@ Print Assumptions C04_built_is_live.
    (on_para); that rowan really aliases handles is checked by the deb822-edit stream, which
    performs every edit through handles obtained before all earlier edits. *)
 
-(* Non-vacuity: a history on a parsed document with a comment, an unterminated last line and a
-   duplicate name; all hypotheses hold and the result is computed. *)
+(* Non-vacuity: a history on a parsed document with a comment, an unterminated last line, a
+   duplicate name and two fields with an empty value ("E:" LF and "G: " LF); E is renamed, then
+   renamed again (through the entry that holds the empty VALUE token), G is renamed, fields are
+   set, removed and inserted around them.  All hypotheses hold, the result is computed, and
+   the tree really differs from the layout's tree by its empty VALUE tokens. *)
 Example C04_ex :
+  let f1 := mk_field [65]%N [32]%N [49]%N [] true in
+  let fe := mk_field [69]%N [] [] [] true in
+  let f2 := mk_field [66]%N [] [50]%N [([32]%N, [51]%N)] true in
+  let fg := mk_field [71]%N [32]%N [] [] true in
+  let f3 := mk_field [65]%N [32]%N [52]%N [] false in
+  let d := lift [BComment [120]%N true; BPara f1 [IField fe; IComment [121]%N true; IField f2; IField fg; IField f3]] in
+  let ops := [ORename 0 [69]%N [70]%N; OSet 0 [67]%N [53; 10; 54]%N; ORemove 0 [65]%N; ORename 0 [66]%N [68]%N;
+              ORename 0 [70]%N [72]%N; ORename 0 [71]%N [73]%N; OInsert 0 [66]%N [55]%N] in
+  lwf d = true /\ Forall op_dom ops /\
+  doc_items (fold_left tstep ops (ltree_of d)) = [[([72], []); ([68], [50; 10; 51]); ([73], []); ([67], [53; 10; 54]); ([66], [55])]]%N /\
+  text (fold_left tstep ops (ltree_of d)) =
+    [35;120;10; 72;58;32;10; 35;121;10; 68;58;32;50;10;32;51;10; 73;58;32;10; 67;58;32;53;10;32;54;10; 66;58;32;55;10]%N /\
+  fold_left tstep ops (ltree_of d) <> ltree_of (fold_left astep ops d).
+Proof.
+  cbv zeta. split; [vm_compute; reflexivity|]. split; [repeat constructor; vm_compute; reflexivity|].
+  split; [vm_compute; reflexivity|]. split; [vm_compute; reflexivity|].
+  intros E. vm_compute in E. discriminate E.
+Qed.
+
+(* the same for the exact statement: every renamed field carries a value *)
+Example C04_ex_exact :
   let f1 := mk_field [65]%N [32]%N [49]%N [] true in
   let f2 := mk_field [66]%N [] [50]%N [([32]%N, [51]%N)] true in
   let f3 := mk_field [65]%N [32]%N [52]%N [] false in
